@@ -293,6 +293,7 @@ func (w *World) consume(op Op, ch <-chan int) {
 		e.S.Go("cons-"+strconv.Itoa(op.Tok), func() {
 			select {
 			case <-gate:
+				simrt.Yield("consgate-wake")
 			case <-e.Done:
 				return
 			}
